@@ -140,9 +140,11 @@ class Reaction(Object):
             )
         forward_variable = self.forward_variable
         reverse_variable = self.reverse_variable
+        # the solver interface refuses some names (empty, white space): rename the
+        # variable first, so that a refused identifier leaves the reaction as it was
+        forward_variable.name = value
         self._id = value
         self.model.reactions._generate_index()
-        forward_variable.name = self.id
         reverse_variable.name = self.reverse_id
 
     @property
